@@ -104,6 +104,12 @@ fn main() {
         }
         return;
     }
+    if id == "ALL2" {
+        let t0 = std::time::Instant::now();
+        let (nets, info) = props::common::all2_nets(3, args.get(2).and_then(|s| s.parse().ok())).expect("all2");
+        println!("{info} in {:?}; colour counts: {:?}", t0.elapsed(), { let mut m = std::collections::BTreeMap::new(); for b in &nets { *m.entry(b.cols.len()).or_insert(0) += 1; } m });
+        return;
+    }
     if id == "NETS" {
         for (name, spec) in nets::core_family() {
             match bridge::Bound::new(name, &spec, 2) {
